@@ -309,6 +309,10 @@ mod types;
 mod human_size;
 mod unions;
 
+#[cfg(conjure_rust_verif)]
+#[doc(hidden)]
+pub use crate::context::verif_take_events;
+
 /// Examples of generated Conjure code.
 ///
 /// This module is only intended to be present in documentation; it shouldn't be relied on by any library code.
